@@ -72,6 +72,8 @@ pub struct Sys {
     pub since_open_w: Vec<Op>,
     pub since_open_r: Vec<Op>,
     pub altered: Option<fn(&hypercore::Proof, u8) -> Option<hypercore::Proof>>,
+    /// the last honest proof handed to the replica (for duplicate-delivery checks)
+    pub last_proof: Option<hypercore::Proof>,
 }
 
 impl Sys {
@@ -89,6 +91,7 @@ impl Sys {
             since_open_w: vec![],
             since_open_r: vec![],
             altered: None,
+            last_proof: None,
         }
     }
 
@@ -151,6 +154,9 @@ impl Sys {
                         Some(p) => proof = p,
                         None => return Out::Err("harness: alteration not applicable".into()),
                     }
+                }
+                if matches!(op, Op::RSync(_)) {
+                    self.last_proof = Some(proof.clone());
                 }
                 match apply_proof(rp.c(), &proof) {
                     Out::Ok(b) => Out::Ok(OpRes::Synced {
